@@ -55,7 +55,9 @@ def viewTag (p : Bytes) : String :=
     frTag v.loc ++
       (match v.loc.ver with
        | .v4 => (if v4Ihl v.loc.ip < 5 then "/ihl<5" else if v4Ihl v.loc.ip = 5 then "/ihl=5" else "/ihl>5")
-       | .v6 => "")
+       | .v6 => "") ++
+      -- which per-analyzer gates the frame passes: T/t = TCP analyzer (no fragment, valid flags), L/l = TLS (payload)
+      ":" ++ (if gate .tcp v then "T" else "t") ++ (if gate .tls v then "L" else "l")
 
 def kfOf (p : Bytes) : List String :=
   (if decide (KF.C15.ihlBelow5 .http p) then ["KF.C15.ihlBelow5"] else []) ++
